@@ -18,7 +18,7 @@ import uuid
 
 from .. import hooks
 from ..lex import DIALECT_OF, sig, tokenize
-from ..prog import DIALECT_CLASSES, P, Cls, Failed, Interp, enc, run
+from ..prog import DIALECT_CLASSES, P, Cls, Failed, Interp, enc, registry, run
 from ..values import kinds, random_value
 
 PROP = "C05"
@@ -80,6 +80,8 @@ POSITIONS = {
     "orderby-const": lambda p, Q, t, v: p.call(_sel(p, Q, t), "orderby", p.new("ValueWrapper", v)),
     "subquery-where": lambda p, Q, t, v: p.call(_sel(p, Q, t), "where", p.call(p.call(t, "field", "b"), "isin", p.call(_sel(p, Q, p.new("Table", "u")), "where", p.bin("==", p.call(p.new("Table", "u"), "field", "c"), v)))),
     "union-operand": lambda p, Q, t, v: p.call(_sel(p, Q, t), "union", p.call(p.call(Q, "from_", t), "select", v)),
+    "union-operand-where": lambda p, Q, t, v: p.call(_sel(p, Q, t), "union", p.call(_sel(p, Q, t), "where", p.bin("==", p.call(t, "field", "b"), v))),
+    "intersect-base-function": lambda p, Q, t, v: p.call(p.call(p.call(Q, "from_", t), "select", p.new("fn.Coalesce", p.call(t, "field", "a"), v)), "intersect", _sel(p, Q, t)),
     "json-term": lambda p, Q, t, v: p.call(p.call(Q, "from_", t), "select", p.new("JSON", v)),
     "json-contains": lambda p, Q, t, v: p.call(_sel(p, Q, t), "where", p.call(p.new("JSON", v), "contains", p.call(t, "field", "j"))),
     "limit": lambda p, Q, t, v: p.call(_sel(p, Q, t), "limit", v),
@@ -97,7 +99,7 @@ NOT_FOR = {  # positions whose API does not take the kind as a value
     "json": {"where-in", "insert-rows", "tuple", "arithmetic", "insert", "replace"},  # lists are row/array syntax there
 }
 LIST_AS_ARRAY = {"select", "select-only", "where-eq", "where-ne", "where-lt", "where-ge", "where-between", "having", "join-on", "set",
-                 "set-str-field", "function-arg", "case-then", "case-else", "case-when", "union-operand", "subquery-where", "returning"}
+                 "set-str-field", "function-arg", "case-then", "case-else", "case-when", "union-operand", "subquery-where", "returning", "union-operand-where", "intersect-base-function"}
 
 
 def applicable(pos, kind, d, v=None):
@@ -134,7 +136,7 @@ def cases(tier, seed, shard, nshards):
                     k += 1
                     if k % nshards == shard:
                         yield {"pos": pos, "d": d, "kind": kind, "label": label, "v": enc(v), "x": True}
-    n = (24000 if tier == "quick" else 1500000) // nshards
+    n = (160000 if tier == "quick" else 2400000) // nshards
     rnd = random.Random("C05:%d:%d" % (seed, shard))
     plist = list(POSITIONS)
     for i in range(n):
@@ -158,12 +160,23 @@ def render_at(pos, d, v):
     if isinstance(o, Failed):
         return None, o
     from ..fingerprint import contexts
+    reg = registry()
     with hooks.collect() as tree:
         try:
-            # always through the dialect class's own context (DDL builders and set operations have no default)
+            # through the dialect class's own context (DDL builders and set operations have no default of their own)
             sql = o.get_sql(contexts()[d])
         except Exception as e:
             return None, Failed(e, -1)
+    tree.obj = o
+    # the same statement rendered the way users do it: str() / get_sql() without a context
+    tree.default_sql = None
+    try:
+        if isinstance(o, reg["_SetOperation"]):
+            tree.default_sql = str(o)
+        elif isinstance(o, reg["QueryBuilder"]):
+            tree.default_sql = o.get_sql()
+    except Exception as e:
+        tree.default_sql = "<exc:%s>" % type(e).__name__
     return sql, tree
 
 
@@ -346,6 +359,37 @@ def run_case(case, mon):
             {"sql": sql_v, "marker_sql": sql_m, "renderers": renderers})
         return
     mon.count("literals_decoded_ok")
+    # (a) the default render path (str() / get_sql() without context) must agree with the explicit dialect context
+    if tree.default_sql is not None:
+        mon.count("default_render_comparisons")
+        if tree.default_sql != sql_v:
+            mon.violation("%s:default-render-differs:%s" % (DIALECT_OF[d], rcls), "%s %r at %s/%s: str()/get_sql() gives %r but the dialect context gives %r" % (
+                kind, v if not isinstance(v, str) else v[:40], pos, d, _short(tree.default_sql), _short(sql_v)))
+            return
+    # (b) rendering the same object under another dialect in between must not change what it renders here
+    from ..fingerprint import contexts
+    other = "MySQLQuery" if d != "MySQLQuery" else "PostgreSQLQuery"
+    try:
+        tree.obj.get_sql(contexts()[other])
+        again = tree.obj.get_sql(contexts()[d])
+        mon.count("cross_dialect_rerenders")
+        if again != sql_v:
+            mon.violation("%s:render-order-dependent:%s" % (DIALECT_OF[d], rcls), "%s at %s: after a render under %s the same object renders %r instead of %r" % (
+                kind, pos, other, _short(again), _short(sql_v)))
+            return
+        # and a fresh object first rendered under the other dialect
+        p2 = P()
+        t2 = p2.new("Table", "t")
+        r2 = POSITIONS[pos](p2, Cls(d), t2, v)
+        o2 = run(p2.prog(), d)[r2.i]
+        o2.get_sql(contexts()[other])
+        fresh = o2.get_sql(contexts()[d])
+        if fresh != sql_v:
+            mon.violation("%s:render-order-dependent:%s" % (DIALECT_OF[d], rcls), "%s at %s: an object first rendered under %s renders %r under %s, a fresh one %r" % (
+                kind, pos, other, _short(fresh), d, _short(sql_v)))
+            return
+    except Exception:
+        pass
     if DIALECT_OF[d] == "sqlite":
         text = sql_v[mid_v[0].start:mid_v[-1].end]
         if a > 0 and tv[a - 1].kind == "OP" and tv[a - 1].text == "-" and kind in ("int", "float", "decimal"):
